@@ -33,6 +33,14 @@ CHECKS = {
    technique="bounded exhaustive enumeration (E1) of every (input, field, cell, missing-value encoding) deviation and pairs of cells through the real text / NetCDF readers, against the reference dataset model, a metamorphic canonical-form oracle over all metrics, and a request-recording proxy that decides which slices must be NaN",
    text="2 inputs x 11 fields (obs fcst pit cdf quantile ensemble other) x 8 cells x every encoding (text: -999, -999.0, nan, NA, na, '.', absent row; NetCDF: NaN, -999, default-fill mask, explicit _FillValue that is an ordinary number, 1e31): all single deviations, all pairs over a field subset, plus whole slice / whole field / whole input missing. Each execution compares 13 request sets x 4 axes with the reference model, requires all ~70 metrics x 3 axes x 2 inputs to equal their value on the canonical in-memory dataset (field missing in every input), and requires NaN wherever one of the metric's own requests (recorded by a transparent proxy) has no valid case.",
    note="trusts: mc/ref/dataset.py; metric formulas are decided by C05/C06/C08; inf/1e31 tokens in text files are outside the documented text encodings"),
+ "C05": dict(level="exploration", design="5/C05",
+   technique="bounded exhaustive enumeration (E1) of all obs/fcst vector pairs up to a length over a colliding 5-value alphabet (+ NaN at every position), 22 metrics x 18 aggregators, against plain-Python textbook formulas (fractions for zero tests); perfect-score and better-than-perfect relations on every vector",
+   text="All 16276 (thorough 406901) vector pairs of length 0..3 (0..4) over {-1, 0, 1/2, 1, 2} x seed-dependent scale, with a NaN injected at every position of short vectors: 22 deterministic metrics through compute_from_obs_fcst, the 7 aggregator-aware ones with all 14 named aggregators and 4 quantile levels, 'within' with 3 intervals; for short vectors the same through Metric.compute on a Data object on axes no / obs / fcst with intervals plus the raw-field metrics obs/fcst; all 5625 3-pair files through the command line (-m <metric> -x no -type csv). Undefined definitions must give NaN/non-finite; a forecast identical to the observations must attain the perfect score; no explored forecast may score better than perfect.",
+   note="trusts: mc/ref/metrics_det.py; population std; type-7 quantiles; LEPS with either <= or < empirical CDF; aggregating elementwise-undefined values with a non-mean statistic is not specified and not judged"),
+ "C06": dict(level="exploration", design="5/C06",
+   technique="bounded exhaustive enumeration (E1) of all 2x2 tables up to a total (ints, numpy ints, floats) and all short obs/fcst vectors over an order-type alphabet incl. NaN, 25 metrics x 8 bin types, against exact-fraction formulas; swap / complement symmetries and perfect-forecast relation on every case; realised tables through the CLI",
+   text="Every table with 1<=total<=8 (thorough 20) in 4 number forms through compute_from_abcd; every vector pair of length <=2 (thorough 3) over {0, 1, 1.5, 2, 3, NaN} against thresholds (1,2) for all 8 bin types through _compute_abcd and compute_from_obs_fcst: counts equal the documented events over exactly the valid pairs, sum = number of valid pairs, swapping obs/fcst swaps b and c, complementing the event swaps a and d, perfect forecasts attain the perfect value where defined, undefined scores are NaN; every table with total<=4 (thorough 7) realised as a text file whose event / non-event values sit on the threshold wherever the bin type allows, plus a pair with a missing forecast, through -m <metric> -r .. -b .. -type csv.",
+   note="trusts: mc/ref/metrics_cat.py; numpy's masked constant is accepted as NaN; the all-zero table only through empty vectors"),
 }
 
 def main():
